@@ -279,7 +279,7 @@ def from_py(x):
     if isinstance(x, bool):
         return VBool(x)
     if isinstance(x, int):
-        return VInt(x)
+        return VInt(int(x))       # (IntFlag / IntEnum members too)
     if isinstance(x, bytes):
         return VStr(x, True)
     if isinstance(x, str):
